@@ -116,6 +116,21 @@ def _implements_symmetric(torch_function: Callable) -> Callable:
     return decorator
 
 
+def _scale_columns(evecs, scale):
+    r"""
+    Returns :math:`\mathbf Q \operatorname{diag}(\mathbf s)` (columns of `evecs` scaled by `scale`).
+    `evecs * scale.unsqueeze(-2)` is an *elementwise* product: dense operators broadcast it to a column
+    scaling, but diagonal-structured eigenvector operators (Diag, Identity, Kronecker products with diagonal
+    factors) reduce the 1 x N row to its diagonal, so those are multiplied by a DiagLinearOperator instead.
+    """
+    from linear_operator.operators.dense_linear_operator import DenseLinearOperator
+    from linear_operator.operators.diag_linear_operator import DiagLinearOperator
+
+    if isinstance(evecs, DenseLinearOperator) or torch.is_tensor(evecs):
+        return evecs * scale.unsqueeze(-2)
+    return evecs.matmul(DiagLinearOperator(scale))
+
+
 class LinearOperator(object):
     r"""
     Base class for LinearOperators.
@@ -2190,14 +2205,14 @@ class LinearOperator(object):
         if method == "symeig":
             evals, evecs = self._symeig(eigenvectors=True)
             # TODO: only use non-zero evals (req. dealing w/ batches...)
-            root = evecs * evals.clamp_min(0.0).sqrt().unsqueeze(-2)
+            root = _scale_columns(evecs, evals.clamp_min(0.0).sqrt())
         elif method == "diagonalization":
             evals, evecs = self.diagonalization()
-            root = evecs * evals.clamp_min(0.0).sqrt().unsqueeze(-2)
+            root = _scale_columns(evecs, evals.clamp_min(0.0).sqrt())
         elif method == "svd":
             U, S, _ = self.svd()
             # TODO: only use non-zero singular values (req. dealing w/ batches...)
-            root = U * S.sqrt().unsqueeze(-2)
+            root = _scale_columns(U, S.sqrt())
         elif method == "lanczos":
             root = self._root_decomposition()
         else:
@@ -2277,14 +2292,14 @@ class LinearOperator(object):
         elif method == "symeig":
             evals, evecs = self._symeig(eigenvectors=True)
             # TODO: only use non-zero evals (req. dealing w/ batches...)
-            inv_root = evecs * evals.clamp_min(1e-7).reciprocal().sqrt().unsqueeze(-2)
+            inv_root = _scale_columns(evecs, evals.clamp_min(1e-7).reciprocal().sqrt())
         elif method == "diagonalization":
             evals, evecs = self.diagonalization()
-            inv_root = evecs * evals.clamp_min(1e-7).reciprocal().sqrt().unsqueeze(-2)
+            inv_root = _scale_columns(evecs, evals.clamp_min(1e-7).reciprocal().sqrt())
         elif method == "svd":
             U, S, _ = self.svd()
             # TODO: only use non-zero singular values (req. dealing w/ batches...)
-            inv_root = U * S.clamp_min(1e-7).reciprocal().sqrt().unsqueeze(-2)
+            inv_root = _scale_columns(U, S.clamp_min(1e-7).reciprocal().sqrt())
         elif method == "pinverse":
             # this is numerically unstable and should rarely be used
             root = self.root_decomposition().root.to_dense()
